@@ -115,7 +115,7 @@ func (c *ChecksumChecker) checksum(t *ast.Task) (string, error) {
 }
 
 func (checker *ChecksumChecker) checksumFilePath(t *ast.Task) string {
-	return filepath.Join(checker.tempDir, "checksum", normalizeFilename(t.Name()))
+	return filepath.Join(checker.tempDir, "checksum", stateFilename(t.Name()))
 }
 
 var checksumFilenameRegexp = regexp.MustCompile("[^A-z0-9]")
@@ -123,4 +123,15 @@ var checksumFilenameRegexp = regexp.MustCompile("[^A-z0-9]")
 // replaces invalid characters on filenames with "-"
 func normalizeFilename(f string) string {
 	return checksumFilenameRegexp.ReplaceAllString(f, "-")
+}
+
+// stateFilename returns the name of the state file of the task with the given
+// name. A name that had to be normalized gets a digest of the original name
+// appended, so that two different task names never share a state file.
+func stateFilename(name string) string {
+	normalized := normalizeFilename(name)
+	if normalized != name {
+		normalized = fmt.Sprintf("%s-%x", normalized, xxh3.HashString(name))
+	}
+	return normalized
 }
